@@ -121,6 +121,24 @@ pub fn check_case(ctx: &Ctx, ws: &mut Workers, c: &ProgCase, counting: bool, cfg
 
 /// `strict`: no exclusion of known findings (used when replaying stored cases)
 pub fn check_case_ex(ctx: &Ctx, ws: &mut Workers, c: &ProgCase, counting: bool, cfgs: &[Config], strict: bool) -> PropResult {
+    check_case_with(ctx, ws, c, counting, cfgs, strict, "c01", &[Entry::Repl, Entry::Module], true, &is_nontrivial)
+}
+
+/// The program check shared by C01 / C08: `tag` prefixes failure signatures, `entries` selects
+/// how programs enter the engine, `rewrites` enables the metamorphic oracle.
+#[allow(clippy::too_many_arguments)]
+pub fn check_case_with(
+    ctx: &Ctx,
+    ws: &mut Workers,
+    c: &ProgCase,
+    counting: bool,
+    cfgs: &[Config],
+    strict: bool,
+    tag: &str,
+    entries: &[Entry],
+    rewrites_on: bool,
+    nontrivial: &dyn Fn(&ProgCase, u64) -> bool,
+) -> PropResult {
     let Some(m) = model_run(&c.program) else {
         if counting {
             ctx.stats.class("outside-model-domain");
@@ -132,10 +150,10 @@ pub fn check_case_ex(ctx: &Ctx, ws: &mut Workers, c: &ProgCase, counting: bool, 
     // signature class `c01:jitdiv:...` so that it is attributed and listed separately.
     let jit_off = Config::jit_off();
     let jit_on = Config::default_cfg();
-    for entry in [Entry::Repl, Entry::Module] {
+    for entry in entries.iter().copied() {
         let mut off_ok = true;
         if cfgs.contains(&jit_off) {
-            match check_program_entry("c01", ws, &jit_off, &c.program, &m.result, &[], entry) {
+            match check_program_entry(tag, ws, &jit_off, &c.program, &m.result, &[], entry) {
                 RunVerdict::Inconclusive => {
                     off_ok = false;
                     if counting {
@@ -157,15 +175,15 @@ pub fn check_case_ex(ctx: &Ctx, ws: &mut Workers, c: &ProgCase, counting: bool, 
                 }
                 continue;
             }
-            match check_program_entry("c01", ws, &jit_on, &c.program, &m.result, &[], entry) {
+            match check_program_entry(tag, ws, &jit_on, &c.program, &m.result, &[], entry) {
                 RunVerdict::Inconclusive => {
                     if counting {
                         ctx.stats.inconclusive.fetch_add(1, std::sync::atomic::Ordering::Relaxed);
                     }
                 }
                 RunVerdict::Done(Err(f)) if off_ok && cfgs.contains(&jit_off) => {
-                    let sub = f.sig.strip_prefix("c01:").unwrap_or(&f.sig).to_string();
-                    return Err(Failure::new(format!("c01:jitdiv:{}", sub), format!("(the same program agrees with the model under STEEL_JIT=false)\n{}", f.detail)));
+                    let sub = f.sig.split_once(':').map(|x| x.1).unwrap_or(&f.sig).to_string();
+                    return Err(Failure::new(format!("{}:jitdiv:{}", tag, sub), format!("(the same program agrees with the model under STEEL_JIT=false)\n{}", f.detail)));
                 }
                 RunVerdict::Done(r) => r?,
             }
@@ -176,10 +194,12 @@ pub fn check_case_ex(ctx: &Ctx, ws: &mut Workers, c: &ProgCase, counting: bool, 
     let rws = rewrites();
     let (name, f) = rws[(hash_str(&c.text) % rws.len() as u64) as usize];
     let p2 = f(&c.program);
-    if let Some(m2) = model_run(&p2) {
+    if !rewrites_on {
+        // nothing
+    } else if let Some(m2) = model_run(&p2) {
         // the rewrite is semantics preserving in the model too (sanity of the rewrite itself)
         if nonvoid(&m2.result.values) == nonvoid(&m.result.values) && m2.result.stdout == m.result.stdout && m2.result.outcome == m.result.outcome {
-            match check_program(&format!("c01-rewrite-{}", name), ws, &cfgs[0], &p2, &m.result, &[]) {
+            match check_program(&format!("{}-rewrite-{}", tag, name), ws, &cfgs[0], &p2, &m.result, &[]) {
                 RunVerdict::Inconclusive => {}
                 RunVerdict::Done(r) => r?,
             }
@@ -203,7 +223,7 @@ pub fn check_case_ex(ctx: &Ctx, ws: &mut Workers, c: &ProgCase, counting: bool, 
             svmodel::interp::PieceOutcome::Ok => ctx.stats.class("outcome:ok"),
             _ => ctx.stats.class("outcome:error"),
         }
-        if is_nontrivial(c, m.result.steps) {
+        if nontrivial(c, m.result.steps) {
             ctx.stats.nontrivial(&c.text);
         }
         if ctx.stats.want_sample() && c.text.len() > 120 {
